@@ -42,7 +42,7 @@ extra = f"""
 
 ADDITIONAL NOTES FOR THIS ROUND
  - Several reviewers before you have already planted changes for this property in: {here}. Across all properties the most used sites were versatiles/reader.rs, pmtiles/reader.rs, mbtiles/reader.rs, tile_bbox.rs, entries_v3.rs, tile_stream.rs, converter.rs and compression.rs. Do NOT repeat those mechanisms; prefer code sites nobody has used yet. Supporting code this property's behaviour depends on and that no earlier change touched includes (names relative to the crates' src directories): {HINTS.get(pid, '')}. Changes in supporting code (type conversions, helpers, trait default methods, writers of a format as well as readers, command-line glue) count as long as the PROPERTY as stated is broken through the project's public behaviour.
- - Mechanisms that earlier reviewers have already used many times and that you should NOT use again: off-by-one or changed behaviour at a size threshold (4096 / 16384 / 65536 / 2^21 bytes or entries), a cache or memo with a weak key or a race, a dropped or wrong coverage (bounding-box pyramid) update, an early exit in the overlay / merge loops, zoom gaps, symbolic or hard links, truncating a 64-bit count to 32 bits, read-ahead / buffering in the file reader or writer, a repeated parameter in pipeline texts, truncated or partially read files, per-format special cases in the HTTP response, percent-decoding of request paths. Look for other kinds: two cooperating sites that each look fine alone; an error path that leaves state behind; the order of two operations; behaviour that depends on the current working directory, relative paths or file extensions; text formatting of numbers; iteration order of hash maps; default values of options; combinations of three options; the second and third call on the same object; very small inputs (empty, one element) as well as unusual-but-valid encodings.
+ - Mechanisms that earlier reviewers have already used many times and that you should NOT use again: off-by-one or changed behaviour at a size threshold (4096 / 16384 / 65536 / 2^21 bytes or entries), a cache or memo with a weak key or a race, a dropped or wrong coverage (bounding-box pyramid) update, an early exit in the overlay / merge loops, zoom gaps, symbolic or hard links, truncating a 64-bit count to 32 bits, read-ahead / buffering in the file reader or writer, a repeated parameter in pipeline texts, truncated or partially read files, per-format special cases in the HTTP response, percent-decoding of request paths, zero-length tiles being skipped, tile type / compression code tables, choosing a reader by file name, temporary output files, output files that are not truncated, a filter or stage being dropped by a shortcut, clipping a stream to metadata bounds, equality / hash of key types, state leaked by a failed pipeline build, trimming of CSV cells, skipping layers by version, aliased file names in directories. Look for other kinds: two cooperating sites that each look fine alone; an error path that leaves state behind; the order of two operations; behaviour that depends on the current working directory, relative paths or file extensions; text formatting of numbers; iteration order of hash maps; default values of options; combinations of three options; the second and third call on the same object; very small inputs (empty, one element) as well as unusual-but-valid encodings.
  - Aim for changes that are hard to find: triggered only by a specific size, count, alignment, name, option combination, earlier operation on the same object, or ordering - and state exactly which in meta.json.
  - Separately from your changes: if you notice that the UNCHANGED tree already violates the property for some input (confirmed by running it), describe the input and the observed behaviour in /tmp/seeded_out/{pid}/remarks.md. Do not spend more than a few minutes on this.
 """
